@@ -3576,3 +3576,171 @@ func runFlattenNeedsKnownLength(rr *RuleRun) {
 		rr.Broken("stale anchor: flattener does not iterate its argument with ElementIterator")
 	}
 }
+
+// ---------------------------------------------------------------------------
+// C01.unknown-type-wholly-checked
+
+func init() {
+	register(&Rule{
+		ID: "C01.unknown-type-wholly-checked", Prop: "C01", Also: []string{"C03"}, Floor: 1, Controls: 0,
+		Doc: "Value.HasWhollyKnownType answers for a value established to be unknown only with the verdict of HasDynamicTypes on the value's whole type: on a path where IsKnown was decided false it neither returns a constant true nor looks at a part of the type only (ElementType), because an unknown object or tuple can carry a placeholder in any attribute or element — Equals relies on this answer before it declares two types different",
+		Run: runUnknownTypeWhollyChecked,
+	})
+}
+
+func runUnknownTypeWhollyChecked(rr *RuleRun) {
+	c := rr.Ctx
+	info := c.Info("cty")
+	fd := rr.MustDecl("cty", "Value.HasWhollyKnownType")
+	if fd == nil {
+		return
+	}
+	recv := info.Defs[fd.Recv.List[0].Names[0]]
+	cf := c.CondFacts(fd.Body, info, nil)
+	g := c.CFG(fd.Body, info)
+	n := 0
+	for _, ret := range g.Returns() {
+		if len(ret.Results) != 1 {
+			continue
+		}
+		unknownHere := cf.HoldsAt(ret, func(cond ast.Expr, truth bool) bool { return !truth && methodCond(info, cond, recv, "IsKnown") })
+		if !unknownHere {
+			continue
+		}
+		n++
+		res := ast.Unparen(ret.Results[0])
+		key := "cty.Value.HasWhollyKnownType/unknown/return " + trunc(exprStr(res), 40)
+		if tv, ok := info.Types[res]; ok && tv.Value != nil {
+			if tv.Value.String() == "false" {
+				rr.OK(key, ret.Pos(), "an unknown value of the dynamic type has no known type")
+			} else {
+				rr.Violation(key, ret.Pos(), "for a value established to be unknown the answer is a constant true: an unknown object or tuple whose type carries a dynamic placeholder is then reported as having a wholly known type, and Equals declares it different from a value it may turn out to equal")
+			}
+			continue
+		}
+		// !val.ty.HasDynamicTypes() on the whole type
+		whole := false
+		ast.Inspect(res, func(m ast.Node) bool {
+			call, ok := m.(*ast.CallExpr)
+			if !ok || !isCall(info, call, "cty.Type.HasDynamicTypes") {
+				return true
+			}
+			x := ast.Unparen(call.Fun.(*ast.SelectorExpr).X)
+			switch t := x.(type) {
+			case *ast.SelectorExpr: // val.ty
+				whole = t.Sel.Name == "ty" && objOf(info, t.X) == recv
+			case *ast.CallExpr: // val.Type()
+				whole = isCall(info, t, "cty.Value.Type") && rootObj(info, t) == recv
+			}
+			return true
+		})
+		if whole {
+			rr.OK(key, ret.Pos(), "the verdict of HasDynamicTypes on the whole type")
+		} else {
+			rr.Violation(key, ret.Pos(), "for a value established to be unknown the answer does not come from HasDynamicTypes on the value's whole type: a placeholder in a part of the type that is not looked at (an attribute of an unknown object, an element of an unknown tuple) goes unnoticed")
+		}
+	}
+	if n == 0 {
+		rr.Info("cty.Value.HasWhollyKnownType/unknown", fd.Pos(), "no return on a path that established the value to be unknown")
+	}
+}
+
+// ---------------------------------------------------------------------------
+// C05.offset-applies-to-its-string
+
+func init() {
+	register(&Rule{
+		ID: "C05.offset-applies-to-its-string", Prop: "C05", Floor: 1, Controls: 0,
+		Doc: "in package ctystrings a byte offset computed by a search over one string (norm.Form.LastBoundary, strings/bytes Index*) is used to slice that same string value: on every path from the search to the slice expression the string was not reassigned (e.g. replaced by its normalised form, whose byte offsets differ)",
+		Run: runOffsetAppliesToItsString,
+	})
+}
+
+func runOffsetAppliesToItsString(rr *RuleRun) {
+	c := rr.Ctx
+	pkg := "cty/ctystrings"
+	eachFuncBody(c, []string{pkg}, func(pkg string, fd *ast.FuncDecl, body *ast.BlockStmt) {
+		info := c.Info(pkg)
+		isSearch := func(call *ast.CallExpr) bool {
+			k := funcKey(callee(info, call))
+			if strings.HasPrefix(k, "golang.org/x/text/unicode/norm.Form.") && strings.Contains(k, "Boundary") {
+				return true
+			}
+			return strings.HasPrefix(k, "strings.Index") || strings.HasPrefix(k, "strings.LastIndex") || strings.HasPrefix(k, "bytes.Index") || strings.HasPrefix(k, "bytes.LastIndex")
+		}
+		// the variable a search argument stands for: s, []byte(s), string(b), or a single-assignment alias of those
+		var baseOf func(e ast.Expr, depth int) types.Object
+		baseOf = func(e ast.Expr, depth int) types.Object {
+			e = ast.Unparen(e)
+			if call, ok := e.(*ast.CallExpr); ok && len(call.Args) == 1 {
+				if tv, ok := info.Types[call.Fun]; ok && tv.IsType() {
+					return baseOf(call.Args[0], depth)
+				}
+			}
+			if id, ok := e.(*ast.Ident); ok {
+				o := info.Uses[id]
+				if o == nil {
+					return nil
+				}
+				if _, idx, rhs := findDefine(info, body, o); rhs != nil && len(rhs) > idx && countAssigns(info, body, o) == 0 && depth < 3 {
+					if b := baseOf(rhs[idx], depth+1); b != nil {
+						if _, isConv := ast.Unparen(rhs[idx]).(*ast.CallExpr); isConv {
+							return b
+						}
+					}
+				}
+				return o
+			}
+			return nil
+		}
+		offsets := map[types.Object]bool{}
+		spec := &FactSpec{
+			Atom: func(cond ast.Expr, truth bool) []Fact { return nil },
+			Effects: func(n ast.Node) []Effect {
+				as, ok := n.(*ast.AssignStmt)
+				if !ok || len(as.Rhs) != 1 || len(as.Lhs) < 1 {
+					return nil
+				}
+				call, ok := ast.Unparen(as.Rhs[0]).(*ast.CallExpr)
+				if !ok || !isSearch(call) || len(call.Args) == 0 {
+					return nil
+				}
+				io := objOf(info, as.Lhs[0])
+				so := baseOf(call.Args[0], 0)
+				if io == nil || so == nil {
+					return nil
+				}
+				offsets[io] = true
+				return []Effect{{Assert: &Fact{"offsetof", objKey(io) + "|" + objKey(so)}}}
+			},
+		}
+		// first pass to collect offsets (Effects runs during MustFacts)
+		g := c.CFG(body, info)
+		facts := g.MustFacts(spec)
+		inspectNoLit(body, func(n ast.Node) bool {
+			se, ok := n.(*ast.SliceExpr)
+			if !ok {
+				return true
+			}
+			for _, ie := range []ast.Expr{se.Low, se.High} {
+				io := objOf(info, ie)
+				if ie == nil || io == nil || !offsets[io] {
+					continue
+				}
+				so := baseOf(se.X, 0)
+				key := fmt.Sprintf("%s.%s/%s[%s]", pkg, declName(fd), exprStr(se.X), io.Name())
+				fs, located := facts.At(se)
+				if !located || so == nil {
+					rr.Assumed(key, se.Pos(), "the slice expression could not be located in the flow graph")
+					continue
+				}
+				if fs.has("offsetof", objKey(io)+"|"+objKey(so)) {
+					rr.OK(key, se.Pos(), "the offset was computed over this very string value")
+				} else {
+					rr.Violation(key, se.Pos(), fmt.Sprintf("%s is a byte offset found by searching one string, but %s is not (any longer) that string on every path here — it was reassigned in between or is a different variable: an offset into the raw bytes cuts the normalised form at the wrong place", io.Name(), exprStr(se.X)))
+				}
+			}
+			return true
+		})
+	})
+}
